@@ -27,15 +27,15 @@ Proof. reflexivity. Qed.
 
 Lemma parse_node_good : forall s, good wf_node (parse_node s).
 Proof.
-  intros s. unfold parse_node. set (raw := trim_space s).
-  destruct raw as [|c0 rest] eqn:Eraw; [constructor|]. rewrite <- Eraw.
+  intros s. unfold parse_node. generalize (trim_space s) as raw0. intros raw0.
+  destruct raw0 as [|c0 rest]; [constructor|].
+  rewrite at_index_0. cbn [idx]. remember (c0 :: rest) as raw eqn:Eraw.
   assert (Hn : (1 <= zlen raw)%Z) by (rewrite Eraw, zlen_cons; pose proof (zlen_nonneg rest); lia).
-  rewrite Eraw at 1. rewrite at_index_0. cbn [idx]. rewrite <- Eraw.
   destruct (Byte.eqb c0 c_slash).
   - destruct (index s_lt raw) as [i|] eqn:Ei; [|constructor].
     apply index_spec in Ei. destruct Ei as [a [b [Hs Hi]]]. subst i.
     assert (Hlen : zlen raw = (zlen a + 1 + zlen b)%Z).
-    { rewrite Hs. rewrite !zlen_app. unfold s_lt. rewrite zlen_cons. unfold zlen. cbn. lia. }
+    { rewrite Hs. rewrite !zlen_app. unfold zlen, s_lt. cbn [length]. lia. }
     pose proof (zlen_nonneg a) as Ha. pose proof (zlen_nonneg b) as Hb.
     fold (zlen a).
     rewrite slice_ok by lia. cbn [idx].
@@ -44,8 +44,8 @@ Proof.
     destruct (Byte.eqb l c_gt) eqn:El; cbn [negb]; [|constructor].
     assert (Hb1 : (1 <= zlen b)%Z).
     { destruct b as [|b0 b']; [|rewrite zlen_cons; pose proof (zlen_nonneg b'); lia].
-      exfalso. rewrite Hs in Hl. cbn [app s_lt] in Hl.
-      replace (zlen (a ++ [c_lt]) - 1)%Z with (zlen a) in Hl by (rewrite zlen_app; unfold zlen; cbn; lia).
+      exfalso. replace (zlen raw - 1)%Z with (zlen a) in Hl by (unfold zlen in *; cbn [length] in *; lia).
+      rewrite Hs in Hl. unfold s_lt in Hl. cbn [app] in Hl.
       rewrite at_index_app_mid in Hl. inversion Hl. subst l. discriminate. }
     rewrite slice_ok by lia. cbn [idx].
     destruct (new_id _) as [id|] eqn:Eid; [|constructor].
@@ -71,7 +71,7 @@ Proof.
   destruct (last_index s_anchor raw) as [i|] eqn:Ei; [|constructor].
   apply last_index_spec in Ei. destruct Ei as [a [b [Hs Hi]]]. subst i. fold (zlen a).
   assert (Hlen : zlen raw = (zlen a + 3 + zlen b)%Z).
-  { rewrite Hs. rewrite !zlen_app. unfold s_anchor, zlen. cbn. lia. }
+  { rewrite Hs. rewrite !zlen_app. unfold zlen, s_anchor. cbn [length]. lia. }
   pose proof (zlen_nonneg a) as Ha. pose proof (zlen_nonneg b) as Hb.
   destruct (zlen raw <? zlen a + 4)%Z eqn:E4; [constructor|].
   rewrite slice_ok by lia. cbn [idx]. rewrite slice_ok by lia. cbn [idx].
@@ -92,16 +92,18 @@ Proof.
 Qed.
 
 (* ---------------------------------------------------------------- literal Parse *)
+Lemma parse_digits_wf : forall neg ds z, parse_digits neg ds = Some z -> in_int64 z = true.
+Proof.
+  intros neg ds z. unfold parse_digits. destruct ds; [discriminate|].
+  destruct (bytes_to_uint _); [|discriminate].
+  destruct (in_int64 _) eqn:E; [|discriminate]. intros H. inversion H. subst. exact E.
+Qed.
+
 Lemma parse_int64_wf : forall s z, parse_int64 s = Some z -> in_int64 z = true.
 Proof.
   intros s z. unfold parse_int64.
-  set (go := fun (neg : bool) (ds : str) => _).
-  assert (Hgo : forall neg ds, go neg ds = Some z -> in_int64 z = true).
-  { intros neg ds. unfold go. destruct ds; [discriminate|].
-    destruct (bytes_to_uint _); [|discriminate].
-    destruct (in_int64 _) eqn:E; [|discriminate]. intros H. inversion H. subst. exact E. }
-  destruct s as [|c r]; [apply Hgo|].
-  destruct c; try apply Hgo.
+  destruct s as [|c r]; [apply parse_digits_wf|].
+  destruct c; apply parse_digits_wf.
 Qed.
 
 Lemma parse_literal_good : forall s, good wf_literal (parse_literal O s).
@@ -113,11 +115,11 @@ Proof.
   destruct i as [|i]; [constructor|].
   apply last_index_spec in Ei. destruct Ei as [a [b [Hs Hi]]].
   assert (Hlen : zlen raw = (zlen a + 8 + zlen b)%Z).
-  { rewrite Hs. rewrite !zlen_app. unfold s_typem, zlen. cbn. lia. }
+  { rewrite Hs. rewrite !zlen_app. unfold zlen, s_typem. cbn [length]. lia. }
   pose proof (zlen_nonneg a) as Ha. pose proof (zlen_nonneg b) as Hb.
   assert (Hia : Z.of_nat (S i) = zlen a) by (unfold zlen; lia).
   rewrite slice_ok by lia. cbn [idx]. rewrite slice_ok by lia. cbn [idx].
-  set (v := firstn _ _). set (t := firstn _ _).
+  set (v := firstn (Z.to_nat (Z.of_nat (S i) - 1)) _). set (t := firstn _ (skipn (Z.to_nat (Z.of_nat (S i) + 8)) _)).
   destruct (str_eqb t s_bool). { destruct (parse_bool v); constructor; reflexivity. }
   destruct (str_eqb t s_int64).
   { destruct (parse_int64 v) eqn:E; constructor. cbn. exact (parse_int64_wf _ _ E). }
@@ -129,7 +131,7 @@ Proof.
   apply orb_false_iff in Eb. destruct Eb as [Eb _].
   pose proof (zlen_nonneg v).
   rewrite slice_ok by lia. cbn [idx].
-  destruct (firstn _ _) as [|x xs]; [constructor; reflexivity|].
+  destruct (firstn _ (skipn _ v)) as [|x xs]; [constructor; reflexivity|].
   destruct (parse_blob_items _); constructor; reflexivity.
 Qed.
 
@@ -137,11 +139,12 @@ Qed.
 Lemma parse_object_good : forall s, good wf_object (parse_object O s).
 Proof.
   intros s. unfold parse_object.
-  pose proof (parse_node_good s) as Hn. inversion Hn as [n Hw E|E].
+  pose proof (parse_node_good s) as Hn. destruct (parse_node s) as [n| | |]; inversion Hn as [n' Hw|]; subst.
   - constructor. exact Hw.
-  - pose proof (parse_literal_good s) as Hl. inversion Hl as [l Hw E2|E2].
+  - pose proof (parse_literal_good s) as Hl. destruct (parse_literal O s) as [l| | |]; inversion Hl as [l' Hw|]; subst.
     + constructor. exact Hw.
-    + pose proof (parse_pred_good s) as Hp. inversion Hp as [p Hw E3|E3]; constructor. exact Hw.
+    + pose proof (parse_pred_good s) as Hp. destruct (parse_pred O s) as [p| | |]; inversion Hp as [p' Hw|]; subst;
+        constructor. exact Hw.
 Qed.
 
 (* ---------------------------------------------------------------- triple.Parse *)
@@ -159,12 +162,15 @@ Proof.
   destruct (o_split_from rest (pe - 1)) as [[os oe]|] eqn:Eo; [|constructor].
   apply find_split_bounds in Eo. destruct Eo as [Eo0 [Eo1 Eo2]].
   rewrite slice_ok by lia. cbn [idx]. rewrite slice_ok by lia. cbn [idx]. rewrite slice_ok by lia. cbn [idx].
-  match goal with |- context [parse_node ?x] => pose proof (parse_node_good x) as Hn1 end.
-  inversion Hn1 as [n Hwn E|E]; [|constructor].
-  match goal with |- context [parse_pred O ?x] => pose proof (parse_pred_good x) as Hp1 end.
-  inversion Hp1 as [p Hwp E2|E2]; [|constructor].
-  match goal with |- context [parse_object O ?x] => pose proof (parse_object_good x) as Ho1 end.
-  inversion Ho1 as [o Hwo E3|E3]; [|constructor].
+  match goal with |- context [parse_node ?x] =>
+    pose proof (parse_node_good x) as Hn1; destruct (parse_node x) as [n| | |] end;
+    inversion Hn1 as [n' Hwn|]; subst; [|constructor].
+  match goal with |- context [parse_pred O ?x] =>
+    pose proof (parse_pred_good x) as Hp1; destruct (parse_pred O x) as [p| | |] end;
+    inversion Hp1 as [p' Hwp|]; subst; [|constructor].
+  match goal with |- context [parse_object O ?x] =>
+    pose proof (parse_object_good x) as Ho1; destruct (parse_object O x) as [o| | |] end;
+    inversion Ho1 as [o' Hwo|]; subst; [|constructor].
   constructor. unfold wf_triple. cbn [subj tpred tobj]. rewrite Hwn, Hwp, Hwo. reflexivity.
 Qed.
 
